@@ -169,7 +169,7 @@ func ruleGenVars(w *World, r *Report) {
 		n++
 		same := unwrapConv(st.Val) == unwrapConv(tested)
 		unified := false
-		if c, ok := unwrapConv(tested).(*ssa.Call); ok && c.Call.StaticCallee() != nil && c.Call.StaticCallee().Name() == "UnifyType" {
+		if c, ok := unwrapConv(tested).(*ssa.Call); ok && c.Call.StaticCallee() != nil && nm(c.Call.StaticCallee()) == "UnifyType" {
 			unified = true
 		}
 		r.Check(same && unified, rule, w.InstrPos(st), w.Name(fn), "Res = "+describe(st.Val)+" under a type test of "+describe(tested), "the reported value is the unified value whose type was tested", "the reported value is not the normalised value the type test looked at: the generator's oracle computes with a value the engine never sees")
@@ -227,7 +227,7 @@ func ruleExecOp(w *World, r *Report, execOp *ssa.Function) {
 		good := false
 		if lk, ok := c.Call.Value.(*ssa.Lookup); ok {
 			if addr, okl := isLoad(lk.X); okl {
-				if g, okg := addr.(*ssa.Global); okg && g.Name() == "builtinOperators" && lk.Index == ssa.Value(execOp.Params[0]) {
+				if g, okg := addr.(*ssa.Global); okg && nm(g) == "builtinOperators" && lk.Index == ssa.Value(execOp.Params[0]) {
 					good = len(c.Call.Args) == 2 && c.Call.Args[1] == ssa.Value(execOp.Params[1])
 				}
 			}
